@@ -54,7 +54,14 @@ func LoopProgram(r R, g *model.GraphData) (prog []*gripql.GraphStatement, family
 	body := loopBody(r, 1+r.Intn(3))
 	lt := gripql.Lt("$s.c", n)
 	pre := []*gripql.GraphStatement{start, SetStmt("c", 0.0), As("s")}
-	switch r.Intn(7) {
+	switch r.Intn(8) {
+	case 7: // one mark entered by a forward jump and re-entered by a backward jump
+		family = "forward-and-backward-jump"
+		prog = append(pre, Jump("a", gripql.Eq("_label", pick(r, VLabels)), true))
+		prog = append(prog, loopBody(r, 1)...)
+		prog = append(prog, Mark("a"), Increment("$s.c", 1), Has(lt))
+		prog = append(prog, body...)
+		prog = append(prog, Jump("a", nil, true))
 	case 0, 1: // the documented example: counter after the body
 		family = "counter-after-body"
 		prog = append(pre, Mark("a"))
